@@ -48,6 +48,8 @@ _BIN = {
     ast.Mult: lambda a, b: a * b,
     ast.BitAnd: lambda a, b: a & b,
     ast.BitOr: lambda a, b: a | b,
+    ast.FloorDiv: lambda a, b: a // b,
+    ast.Mod: lambda a, b: a % b,
 }
 
 
@@ -502,11 +504,124 @@ class DepthEngine(Engine):
 
     def stmt(self, node, states, depth):
         self.spec.cur_depth = depth
+        if isinstance(node, ast.stmt) and node.__class__.__name__ == "CtxBody":
+            return self._ctx_body(node, states)
+        if isinstance(node, (ast.With, ast.AsyncWith)) and getattr(self.spec, "inline_ctxmanagers", False):
+            o = self._with_ctxmanager(node, states, depth)
+            if o is not None:
+                return o
         return super().stmt(node, states, depth)
 
     def cond(self, expr, states, depth):
         self.spec.cur_depth = depth
         return super().cond(expr, states, depth)
+
+    # -- `with <generator-based context manager>(..)`: the generator is inlined around the with-body (see ``generator_around``)
+    def _cm_of(self, item, s, depth):
+        c = item.context_expr
+        if not isinstance(c, ast.Call):
+            return None
+        fn = self.spec.inline(c, s, depth)
+        return fn if fn is not None and ctxmanager_kind(fn) else None
+
+    def _with_ctxmanager(self, node, states, depth):
+        """None when no item of the with statement is a call of a resolvable @contextmanager / @asynccontextmanager function"""
+        hits = {id(s): [self._cm_of(i, s, depth) for i in node.items] for s in states}
+        if not any(fn is not None for fns in hits.values() for fn in fns):
+            return None
+        if len(node.items) > 1:
+            # `with a, b: body` is `with a: with b: body`
+            inner = type(node)(items=node.items[1:], body=node.body, type_comment=None)
+            outer = type(node)(items=node.items[:1], body=[inner], type_comment=None)
+            for x in (inner, outer):
+                ast.copy_location(x, node)
+                x._parent = node
+            return self.stmt(outer, states, depth)
+        item = node.items[0]
+        out = None
+        plain = {s for s in states if hits[id(s)][0] is None}
+        if plain:
+            out = super().stmt(node, plain, depth)
+        from ..paths import Out
+
+        out = out or Out.empty()
+        for s in states:
+            fn = hits[id(s)][0]
+            if fn is None:
+                continue
+            kind = ctxmanager_kind(fn)
+            if (kind == "async") != isinstance(node, ast.AsyncWith):
+                raise AnalysisError(f"{norm(item.context_expr)[:60]}: {'async ' if kind == 'async' else ''}context manager used in a{'n async' if isinstance(node, ast.AsyncWith) else ' plain'} with")
+            holes = []
+
+            def make_hole(ystmt, holes=holes):
+                holes.append(CtxBody(node, node.body, depth, ystmt))
+                return holes[-1]
+
+            gen, ystmt = generator_around(fn, make_hole)
+            gen._cm_inlined = True
+            key = f"$cm:{id(holes[0])}"
+            o = self.call(gen, item.context_expr, {s}, depth)
+            out.exc |= {r.drop(lambda k: k == key) for r in o.exc}
+            for r in o.ret:
+                how = r.get(key)
+                r2 = r.drop(lambda k: k == key)
+                if not is_const(how):
+                    # the generator ended without reaching its yield: contextlib raises RuntimeError("generator didn't yield")
+                    out.exc.add(r2.drop(lambda k: k == "$ret").set("$exc", ("c", "RuntimeError")))
+                elif how[1] == "ret":
+                    out.ret.add(r2)
+                elif how[1] == "brk":
+                    out.brk.add(r2.drop(lambda k: k == "$ret"))
+                elif how[1] == "cont":
+                    out.cont.add(r2.drop(lambda k: k == "$ret"))
+                else:
+                    out.normal.add(r2.drop(lambda k: k == "$ret"))
+        return out
+
+    def _ctx_body(self, hole, states):
+        """the with-body, run in the frame of the with statement at the place of the generator's yield.  How the body was left is
+        remembered in the state; return / break / continue of the body travel through the generator like a ``return`` (its ``finally``
+        clauses run, nothing else) and are handed back to the with statement's own frame by ``_with_ctxmanager``."""
+        from ..paths import Out
+
+        sp = self.spec
+        key = f"$cm:{id(hole)}"
+        node, depth = hole.with_node, hole.with_depth
+        y = hole.yield_stmt.value
+        cur = set()
+        for s in states:
+            if is_const(s.get(key)):
+                raise AnalysisError(f"{norm(node.items[0].context_expr)[:60]}: the context manager reaches its yield twice (not modelled)")
+            ov = node.items[0].optional_vars
+            if ov is not None:
+                v = sp.value(y.value, s, self.spec.cur_depth) if y.value is not None else ("c", None)
+                s = sp.bind(ov, None, s, depth, value=v if (is_const(v) or is_sym(v)) else UNKNOWN)
+            cur.add(s)
+        gen_depth = sp.cur_depth
+        # the generator's frame lives one level below the with statement - where the calls the body inlines put (and afterwards drop)
+        # their frames too: its locals are parked under another name while the body runs
+        live, parked = f"{gen_depth}:", f"$cmframe:{id(hole)}:"
+
+        def park(s):
+            return State(s.trace, {(parked + k if k.startswith(live) else k): v for k, v in s.env})
+
+        def unpark(s):
+            return State(s.trace, {(k[len(parked):] if k.startswith(parked) else k): v for k, v in s.env if not k.startswith(live)})
+
+        cur = {park(s) for s in cur}
+        sp.call_stack.append(hole.yield_stmt)
+        try:
+            o = self.block(hole.with_body, cur, depth)
+        finally:
+            sp.call_stack.pop()
+            sp.cur_depth = gen_depth
+        o = Out({unpark(s) for s in o.normal}, {unpark(s) for s in o.ret}, {unpark(s) for s in o.exc}, {unpark(s) for s in o.brk}, {unpark(s) for s in o.cont})
+        out = Out.empty()
+        out.normal = {s.set(key, ("c", "normal")) for s in o.normal}
+        out.exc = {s.set(key, ("c", "exc")) for s in o.exc}
+        out.ret = {s.set(key, ("c", "ret")) for s in o.ret} | {s.set(key, ("c", "brk")).set("$ret", ("c", None)) for s in o.brk} | {s.set(key, ("c", "cont")).set("$ret", ("c", None)) for s in o.cont}
+        return out
 
     def _plain_cond(self, expr, s, depth, T, F):
         # walrus targets nested in a condition leaf (`if (t := io.handler) is None:`) are bound before the leaf is decided
@@ -519,6 +634,9 @@ class DepthEngine(Engine):
         self._decide_into(expr, expr, s, depth, T, F)
 
     def call(self, fn, call, states, depth):
+        if getattr(self.spec, "inline_ctxmanagers", False) and ctxmanager_kind(fn) and not getattr(fn, "_cm_inlined", False):
+            # calling the decorated function only creates the context manager object; its code runs when a with statement enters it
+            raise AnalysisError(f"{norm(call)[:60]}: a context manager object is created outside the header of a with statement (not modelled)")
         stack = self.spec.call_stack
         stack.append(call)
         try:
@@ -699,6 +817,7 @@ class SymFlowSpec(FlowSpec):
     Use ``traces_of_v``."""
 
     cur_depth = 0
+    inline_ctxmanagers = True  # `with helper(..)` on a @contextmanager generator function: the generator is inlined around the body
 
     def __init__(self, hook_classes=(), extwaits=False, guard_also=None, **kw):
         super().__init__(**kw)
@@ -771,6 +890,13 @@ class SymFlowSpec(FlowSpec):
             if self._keep_ev(ev):
                 out = (ev,) + out
         return out
+
+    def raises_into(self, stmt, handler_names, st):
+        # the with-body standing at the yield of an inlined context manager: what the body raises is decided inside the body (its own
+        # guarded statements and explicit raises reach the generator's handlers as real exception states); the placeholder itself raises nothing
+        if stmt.__class__.__name__ == "CtxBody":
+            return []
+        return super().raises_into(stmt, handler_names, st)
 
     def _log_wait(self, ev):
         """``wait_log``: every external wait the engine came across (also on paths that are cut off by the loop bound):
@@ -963,3 +1089,128 @@ def handle_client_paths(ctx, hook_classes):
     spec = HandleClientSpec(resolver=class_helper_resolver(ctx.model, SERVER_PY, CONN_HANDLER, CONN_HANDLER_ATOMIC), hook_classes=hook_classes)
     res, eng = traces_of_v(fn, spec)
     return fn, [(t, how, st) for t, how, st in res if how != "raise:AssertionError"], eng
+
+
+
+# ---------------------------------------------------------------------------------------------------
+# hardening round 2 (C09): ``with <generator-based context manager>(..)`` is analysed by inlining the generator around the with-body
+# (DepthEngine.stmt dispatches here when the spec sets ``inline_ctxmanagers``), and "is this identifier bound exactly once" for
+# constants / factory functions that a rule evaluates.  Additive.
+
+
+class CtxBody(ast.stmt):
+    """Placeholder statement: the body of a ``with`` statement, standing where the ``yield`` of its @contextmanager generator stood."""
+
+    _fields = ()
+
+    def __init__(self, with_node, body, depth, yield_stmt):
+        super().__init__()
+        self.with_node, self.with_body, self.with_depth, self.yield_stmt = with_node, body, depth, yield_stmt
+        ast.copy_location(self, yield_stmt)
+        self._parent = getattr(yield_stmt, "_parent", None)
+
+
+def ctxmanager_kind(fn):
+    """'sync' / 'async' when ``fn`` is decorated with contextlib.contextmanager / asynccontextmanager (however imported), else None"""
+    for d in getattr(fn, "decorator_list", []):
+        la = last_attr(d)
+        if la == "contextmanager" and isinstance(fn, ast.FunctionDef):
+            return "sync"
+        if la == "asynccontextmanager" and isinstance(fn, ast.AsyncFunctionDef):
+            return "async"
+    return None
+
+
+def _own_yields(node):
+    """yield expressions of this function body part (nested defs / lambdas excluded)"""
+    out = []
+    stack = [node]
+    while stack:
+        n = stack.pop()
+        if isinstance(n, (ast.Yield, ast.YieldFrom)):
+            out.append(n)
+        for c in ast.iter_child_nodes(n):
+            if not isinstance(c, (ast.FunctionDef, ast.AsyncFunctionDef, ast.Lambda, ast.ClassDef)):
+                stack.append(c)
+    return out
+
+
+def generator_around(fn, make_hole):
+    """Copy of the generator function ``fn`` (only the statements on the way to its ``yield`` are copied, everything else is shared) in
+    which the single ``yield`` statement is replaced by ``make_hole(yield_stmt)``.  What ``contextlib.contextmanager`` does with the
+    generator is then ordinary control flow: the code before the yield runs on entry, the with-body runs *at* the yield (an exception
+    of the body is raised there, so the generator's own ``try/except/finally`` apply), the code after it on every exit.
+    Shapes outside this (several yields, a yield inside a loop or inside an expression, ``yield from``) raise AnalysisError."""
+    ys = [y for st in fn.body for y in _own_yields(st)]
+    if len(ys) != 1 or not isinstance(ys[0], ast.Yield):
+        raise AnalysisError(f"{fn.name}: context manager with {len(ys)} yield expressions / a yield from (not modelled)")
+    y = ys[0]
+    found = []
+
+    def contains(s):
+        return any(x is y for x in _own_yields(s))
+
+    def rewrite(stmts):
+        out = []
+        for s in stmts:
+            if not contains(s):
+                out.append(s)
+                continue
+            if isinstance(s, ast.Expr) and s.value is y:
+                found.append(s)
+                out.append(make_hole(s))
+                continue
+            if isinstance(s, (ast.If, ast.Try, ast.With, ast.AsyncWith)) and not any(
+                x is y for e in ([s.test] if isinstance(s, ast.If) else [i.context_expr for i in s.items] if isinstance(s, (ast.With, ast.AsyncWith)) else []) for x in _own_yields(e)
+            ):
+                c = copy.copy(s)
+                for field in ("body", "orelse", "finalbody"):
+                    if isinstance(getattr(c, field, None), list):
+                        setattr(c, field, rewrite(getattr(c, field)))
+                if isinstance(c, ast.Try):
+                    hs = []
+                    for h in c.handlers:
+                        if contains(h):
+                            h2 = copy.copy(h)
+                            h2.body = rewrite(h.body)
+                            hs.append(h2)
+                        else:
+                            hs.append(h)
+                    c.handlers = hs
+                out.append(c)
+                continue
+            raise AnalysisError(f"{fn.name}: the yield of the context manager is not a plain statement under if / try / with (not modelled): {norm(s)[:80]}")
+        return out
+
+    new = copy.copy(fn)
+    new.body = rewrite(list(fn.body))
+    if len(found) != 1:
+        raise AnalysisError(f"{fn.name}: yield statement of the context manager not found")
+    return new, found[0]
+
+
+def binding_sites(model, name: str, sub: str = "mitmproxy"):
+    """[(rel, node)] for everything in the package that binds the identifier ``name`` in a way another scope can see: ``def`` / ``class``
+    statements, stores to a module- or class-level name (or to a ``global``), stores to / deletions of an attribute ``<x>.name`` and
+    ``setattr(<x>, "name", ..)``.  A rule that evaluates a constant or a factory function requires exactly one (the definition it read)."""
+    from ..model import enclosing_func
+
+    out = []
+    for p in sorted((model.repo / sub).rglob("*.py")):
+        rel = p.relative_to(model.repo).as_posix()
+        if rel.startswith("mitmproxy/contrib/") or name not in model.source(rel):
+            continue
+        for n in ast.walk(model.module(rel).tree):
+            if isinstance(n, (ast.FunctionDef, ast.AsyncFunctionDef, ast.ClassDef)) and n.name == name:
+                out.append((rel, n))
+            elif isinstance(n, ast.Attribute) and n.attr == name and isinstance(n.ctx, (ast.Store, ast.Del)):
+                out.append((rel, n))
+            elif isinstance(n, ast.Name) and n.id == name and isinstance(n.ctx, (ast.Store, ast.Del)):
+                fn = enclosing_func(n)
+                if fn is None or any(isinstance(g, ast.Global) and name in g.names for g in ast.walk(fn)):
+                    out.append((rel, n))
+            elif isinstance(n, ast.Call) and isinstance(n.func, ast.Name) and n.func.id in ("setattr", "delattr") and len(n.args) >= 2:
+                a = n.args[1]
+                if isinstance(a, ast.Constant) and a.value == name:
+                    out.append((rel, n))
+    return out
